@@ -10,6 +10,8 @@ ACTIONS = ("Validate", "AskMode", "AskOnb", "Echo", "Confirm", "GetPin", "GenSee
            "AskMode2", "GetNewPin", "SendNewPin", "ChangePin", "GetKeys", "WriteFiles", "LinkFault")
 NEGATIVES = ("NeverOnboards", "NeverUnlocks", "NeverChanges", "NeverWritesKeys", "NeverAnyPin",
              "NeverLinkFault")
+# the event fold (ObserveAll) recurses over up to ~70 events per step: give TLC's threads room
+JAVA_OPTS = ("-Xss32m",)
 TRACE_KEYS = ("id", "op", "plat", "any_pin", "no_unlock", "src", "pins", "upin", "outfile", "answers",
               "d0", "acc", "prev_seed", "ev", "outcome", "files", "expect", "fin_pin", "pre")
 
@@ -25,7 +27,8 @@ def pin_label(p):
 
 
 RELEVANT = {
-    "onboard": ("plat", "src", "any_pin", "outfile", "pre", "mode", "onb", "echo", "answers", "wipe"),
+    "onboard": ("plat", "src", "any_pin", "outfile", "pre", "mode", "onb", "echo", "answers", "wipe",
+                "enter", "post"),
     "unlock": ("plat", "src", "any_pin", "mode", "onb", "echo", "unlock"),
     "changepin": ("plat", "src", "any_pin", "no_unlock", "mode", "onb", "echo", "unlock", "newpin"),
     "pubkeys": ("plat", "src", "any_pin", "no_unlock", "outfile", "pre", "mode", "onb", "echo", "unlock",
@@ -36,7 +39,7 @@ RELEVANT = {
 
 def signature(clause, d):
     """Stable abstract description: failing clause + the dimensions the command can depend on."""
-    dims = " ".join("%s=%s" % (k, int(d[k]) if isinstance(d[k], bool) else d[k]) for k in RELEVANT[d["op"]])
+    dims = " ".join("%s=%s" % (k, int(d[k]) if isinstance(d.get(k), bool) else d.get(k)) for k in RELEVANT[d["op"]])
     return "%s|op=%s %s pins=[%s]%s%s" % (clause, d["op"], dims, ";".join(pin_label(p) for p in d["pins"]),
                                          answer_shapes(d), " via=cli" if d.get("cli") else "")
 
@@ -94,7 +97,8 @@ def random_scenario(rng):
         outfile=(op == "pubkeys" and rng.random() < 0.8) or (op == "onboard" and plat == "ledger"
                                                               and rng.random() < 0.9),
         mode=mode, onb=onb, echo=rng.choice(["t", "t", "t", "f"]),
-        answers=rng.choice(["yes", "yes", "oy", "no", "on"]),
+        answers=rng.choice(["yes", "yes", "yes", "oy", "no", "on", "eof", "oeof"]),
+        enter=rng.choice(["other", "other", "eof"]), post=rng.choice(["retype", "retype", "eof"]),
         wipe=rng.choice(["t", "t", "t", "f"]), unlock=rng.choice(["t", "t", "t", "f"]),
         newpin=rng.choice(["t", "t", "t", "f"]),
         mode2=rng.choice(["signer", "signer", "signer"] + list(admin_ops.MODES)),
@@ -142,7 +146,7 @@ def run(ctx):
         "exercised",
     ]
     # 1. design check, exhaustive
-    r = tlc.check("Admin", "MC_Admin.cfg", coverage=True, workers=4)
+    r = tlc.check("Admin", "MC_Admin.cfg", coverage=True, workers=4, java_opts=JAVA_OPTS)
     if r.violated:
         raise core.MachineryError("Admin model violates %s — model and property disagree; replay "
                                   "against the code before reporting" % r.violated)
@@ -152,13 +156,13 @@ def run(ctx):
     if never:
         raise core.MachineryError("vacuity: actions never taken: %s" % never)
     res.coverage["uncovered_actions"] = never
-    rn = tlc.run("Admin", "Neg_Admin.cfg", workers=2, extra=["-continue"])
+    rn = tlc.run("Admin", "Neg_Admin.cfg", workers=2, extra=["-continue"], java_opts=JAVA_OPTS)
     missing = [n for n in NEGATIVES if n not in rn.violated]
     if missing:
         raise core.MachineryError("vacuity guards not violated: %s" % missing)
     res.coverage["negative_configuration"] = "all of %s violated, as they must be" % (NEGATIVES,)
     # 2. all behaviours of the model
-    behaviours, rg = tlc.generate("GenAdmin", "Gen_Admin.cfg")
+    behaviours, rg = tlc.generate("GenAdmin", "Gen_Admin.cfg", java_opts=JAVA_OPTS)
     res.add_tlc(rg, "Gen_Admin behaviours")
     res.coverage["behaviours_generated"] = len(behaviours)
     # 3. replay on the real code
@@ -184,14 +188,14 @@ def run(ctx):
 
     # 3a. every behaviour once, one seeded member of its PIN content class
     n_fav = 0
-    n_link, link_kinds = 0, {}
+    n_link, link_kinds, n_plain = 0, {}, 0
     for k, bi in enumerate(order):
         b = behaviours[bi]
         if b["env"]["link"] != "?":
             # the link fails at a gating exchange: everything the behaviour never looked at is set so
             # that a command that wrongly went on would reach the seed / PIN step. Quick tier: all the
             # single-deviation ones, a rotating fifth of the others.
-            if ctx.quick and not admin_ops.clean_prefix(b) and k % 5:
+            if ctx.quick and not admin_ops.clean_prefix(b) and k % 8:
                 continue
             sc = admin_ops.scenario_from_model(b["cfg"], b["env"], ctx.rng, favourable=True, hist=b["hist"])
             sc.desc["cli"] = (k % 4 == 0)
@@ -200,16 +204,19 @@ def run(ctx):
             key = "%s@%s" % (b["env"]["link"], b["env"]["linkat"])
             link_kinds[key] = link_kinds.get(key, 0) + 1
             continue
+        if ctx.quick and b["env"]["retry"] == "r2valid" and not admin_ops.clean_prefix(b) and k % 2:
+            continue        # quick tier: half of the twice-re-prompted siblings that deviate elsewhere too
         sc = admin_ops.scenario_from_model(b["cfg"], b["env"], ctx.rng, boundary=(k % 3 == 0))
         record(sc, "b%d" % bi, "model-behaviour", b)
-        if b["outcome"] == "err" and "?" in b["env"].values():
+        n_plain += 1
+        if b["outcome"] == "err" and "?" in b["env"].values() and (
+                not ctx.quick or admin_ops.clean_prefix(b) or k % 4 == 0):
             # the same refusal as a single deviation: whatever the behaviour never looked at is set
             # so that the command, had it wrongly gone on, would reach the seed / PIN step
             sc = admin_ops.scenario_from_model(b["cfg"], b["env"], ctx.rng, favourable=True)
             record(sc, "f%d" % bi, "model-behaviour, rest favourable", b)
             n_fav += 1
-    res.coverage["behaviours_replayed"] = len(order) - sum(1 for b in behaviours if b["env"]["link"] != "?") \
-        + n_link
+    res.coverage["behaviours_replayed"] = n_plain + n_link
     res.coverage["refusals_replayed_with_rest_favourable"] = n_fav
     res.coverage["link_fault_behaviours_replayed"] = n_link
     res.coverage["link_faults_by_kind_and_position"] = dict(sorted(link_kinds.items()))
@@ -237,7 +244,7 @@ def run(ctx):
         for mi, m in enumerate(admin_ops.PIN_MEMBERS[b["env"]["pinc"]]):
             if ctx.quick and b["cfg"]["op"] in ("unlock", "pubkeys") and (bi + mi) % 3:
                 continue
-            if ctx.quick and not first and (bi + mi) % 6:
+            if ctx.quick and not first and (bi + mi) % 12:
                 continue
             vias = [False]
             if b["cfg"]["op"] in ("onboard", "changepin") and (ctx.pick(False, True) or (bi + mi) % 4 == 0):
@@ -370,6 +377,8 @@ def run(ctx):
     res.coverage["onboardings_that_delivered_a_seed"] = len(state["seeds"])
     res.coverage["distinct_seeds_delivered"] = len(set(state["seeds"]))
     res.coverage["seeds_equal_to_own_recorded_draw"] = state["own_draw"]
+    res.coverage["runs_still_prompting_after_%d_answers" % admin_ops.PROMPT_CAP] = sum(
+        1 for t in traces if t["outcome"] == "hang")
     res.coverage["pubkey_files_read_back"] = sum(1 for t in traces if t["files"]["txt"])
     shown = 0
     for t in traces:
@@ -452,6 +461,9 @@ CORRUPTIONS = (
      lambda t: t["fin_pin"].__setitem__(3, 0xFC)),
     ("generated PIN without a letter", "PinPolicy", lambda t: t["op"] == "genpin",
      lambda t: t["ev"][0].update(data=[0x31] * 8)),
+    ("success reported although the PIN prompt met the end of the input", "InputError",
+     lambda t: t["outcome"] == "err" and any(e["cls"] == "getpass" and e["ok"] == "f" for e in t["ev"]),
+     lambda t: t.update(outcome="ok")),
     ("preconditions held but the command failed", "Carried", _onb_ok,
      lambda t: t.update(outcome="err")),
     ("a documented path never asked", "Carried", _pubkeys_ok,
